@@ -351,6 +351,19 @@ def uf_concrete(t):
     if z3.is_bv_value(t): return t.as_long()
     if not z3.is_app(t): return None
     nm = t.decl().name()
+    if nm.startswith('ufint_'):
+        args = [uf_concrete(t.arg(i)) for i in range(t.num_args())]
+        if any(a is None for a in args): return None
+        _, op, w = nm.split('_'); w = int(w); M_ = (1 << w) - 1
+        sg = lambda x: x - (1 << w) if x >> (w - 1) else x
+        a, b = args
+        if op == 'mul': return (a * b) & M_
+        if b == 0: return None
+        if op == 'udiv': return a // b
+        if op == 'urem': return a % b
+        q = abs(sg(a)) // abs(sg(b)); q = q if (sg(a) < 0) == (sg(b) < 0) else -q
+        if op == 'sdiv': return q & M_
+        return (sg(a) - q * sg(b)) & M_
     if not nm.startswith('uf_'): return None
     args = [uf_concrete(t.arg(i)) for i in range(t.num_args())]
     if any(a is None for a in args): return None
